@@ -568,7 +568,11 @@ impl Parser<'_, '_> {
                 dr::Operand::LiteralString(self.decoder.string()?),
             ],
             spirv::Decoration::BankBitsINTEL => {
-                vec![dr::Operand::LiteralBit32(self.decoder.bit32()?)]
+                let mut params = vec![];
+                while !self.decoder.limit_reached() {
+                    params.push(dr::Operand::LiteralBit32(self.decoder.bit32()?));
+                }
+                params
             }
             spirv::Decoration::ForcePow2DepthINTEL => {
                 vec![dr::Operand::LiteralBit32(self.decoder.bit32()?)]
